@@ -152,12 +152,14 @@ class Gen:
             if d >= self.o["max_depth"] or c < 0.35:
                 if vs and self.chance(0.6):
                     return self.pick(vs)
-                v = self.pick(["0.5", "1.5", "2.0", "0.25", "3.75", "10.0", "0.1", "100.5", "(-0.5)", "(-2.25)", "1e3", "0.0"])
+                v = self.pick(["0.5", "1.5", "2.0", "0.25", "3.75", "10.0", "0.1", "100.5", "(-0.5)", "(-2.25)", "1e3", "0.0", "(-0.0)", "(-7.5)", "(-100.25)"])
                 return v
             if c < 0.8:
-                op = self.pick(["+", "-", "*", "/"])
+                op = self.pick(["+", "-", "*", "/", "%"])
                 a = self.expr(sc, "flt", d + 1)
-                b = self.expr(sc, "flt", d + 1) if op != "/" else self.pick(["2.0", "4.0", "0.5", "(-8.0)", "3.0"])
+                b = self.expr(sc, "flt", d + 1) if op not in "/%" else self.pick(["2.0", "4.0", "0.5", "(-8.0)", "3.0", "(-1.5)", "0.3"])
+                if op == "%":
+                    self.features.add("float-mod")
                 return f"({a} {op} {b})"
             if c < 0.95:
                 self.features.add("int-float-promotion")
@@ -380,7 +382,7 @@ class Gen:
 
     def function(self, sc):
         self.fn_count += 1
-        kind = self.r.randrange(8)
+        kind = self.r.randrange(10)
         name = f"f{self.fn_count}"
         deco = ""
         if self.chance(self.o["decorators"]):
@@ -451,6 +453,67 @@ class Gen:
             else:
                 out.append(f"fn {name}(cb, x) {{ if x > 2 {{ return cb(x - 1) }} return cb(x) + 1 }}")
             self.funcs[name] = (["fn1", "int"], "int")
+        elif kind == 9:         # a closure created in an inner block / loop shares an OUTER local
+            self.features.add("closure-inner-block")
+            shape = self.r.randrange(4)
+            k1, k2 = self.r.randrange(1, 20), self.r.randrange(20, 90)
+            out.append(f"fn {name}() {{")
+            out.append(f"    let mut x = {k1}")
+            if shape == 0:
+                out.append("    let mut g = fn() { return 0 }")
+                out.append(f"    if {self.pick(['true', 'x > 0', '(1 < 2)'])} {{")
+                out.append("        g = fn() { x = x + 10; return x }")
+                out.append("    }")
+                out.append(f"    x = {k2}")
+                out.append("    print(g())")
+            elif shape == 1:
+                out.append("    let fs = Vec[fn() { return 0 }]")
+                out.append(f"    for i in 0..{self.r.randrange(1, 4)} {{")
+                out.append("        let a = i * 100")
+                out.append("        fs.push(fn() { x = x + 1; return x + a })")
+                out.append("    }")
+                out.append(f"    x = {k2}")
+                out.append("    let mut t = 0")
+                out.append("    for f in fs { t = t * 3 + f() }")
+                out.append("    print(t)")
+            elif shape == 2:
+                out.append("    let mut g = fn() { return 0 }")
+                out.append("    let mut i = 0")
+                out.append("    while i < 2 {")
+                out.append("        if i == 0 { g = fn() { x = x * 2; return x } }")
+                out.append("        i = i + 1")
+                out.append("    }")
+                out.append(f"    x = {k2}")
+                out.append("    print(g() + g())")
+            else:
+                out.append("    let mut g = fn() { return 0 }")
+                out.append("    {")
+                out.append("        let y = x + 1")
+                out.append("        { g = fn() { x = x + y; return x } }")
+                out.append("    }")
+                out.append(f"    x = {k2}")
+                out.append("    print(g())")
+            out.append("    return x")
+            out.append("}")
+            self.funcs[name] = ([], "int")
+        elif kind == 8:         # implicit result through if / else-if chains with constant arms
+            self.features.add("tail-else-if")
+            kc = lambda: self.pick(["true", "false", "(1 < 2)", "(2 < 1)", "c"])
+            v = lambda: self.pick([str(self.r.randrange(0, 99)), '"s"', "c", "(if c { 1 } else { 2 })"])
+            shape = self.r.randrange(5)
+            if shape == 0:
+                body = f"if c {{ {v()} }} else if {kc()} {{ {v()} }}"
+            elif shape == 1:
+                body = f"if c {{ {v()} }} else if {kc()} {{ {v()} }} else {{ {v()} }}"
+            elif shape == 2:
+                body = f"if {kc()} {{ if c {{ {v()} }} else if {kc()} {{ {v()} }} }} else {{ {v()} }}"
+            elif shape == 3:
+                body = f"if c {{ {v()} }} else {{ if {kc()} {{ {v()} }} }}"
+            else:
+                body = f"let t = {v()}; if {kc()} {{ {v()} }} else if c {{ t }} else if {kc()} {{ {v()} }} else {{ {v()} }}"
+            out.append(f"fn {name}(c) {{ {body} }}")
+            out.append(f"println({name}(true))")
+            out.append(f"println({name}(false))")
         elif kind == 3:         # single-expression function over parameters (inliner bait)
             np_ = self.r.randrange(1, 4)
             ps = self.r.sample(["a", "b", "c", "x", "n"], np_)
